@@ -227,8 +227,14 @@ func (j *JsonConverter) importInputField(field InputValue) (ref int, err error) 
 		return -1, err
 	}
 
-	return j.doc.ImportInputValueDefinition(
-		field.Name, field.Description, typeRef, defaultValue), nil
+	ref = j.doc.ImportInputValueDefinition(
+		field.Name, field.Description, typeRef, defaultValue)
+	if field.IsDeprecated {
+		j.doc.InputValueDefinitions[ref].HasDirectives = true
+		j.doc.InputValueDefinitions[ref].Directives.Refs = append(j.doc.InputValueDefinitions[ref].Directives.Refs,
+			j.importDeprecatedDirective(field.DeprecationReason))
+	}
+	return ref, nil
 }
 
 func (j *JsonConverter) importType(typeRef TypeRef) (ref int) {
